@@ -823,4 +823,63 @@ theorem solve_ok (A : Mat ℝ n n) (B : Mat ℝ n nx) (d : ℝ) (X : Mat ℝ n n
 
 end Solve
 
+/-! ## the vector overload is the one-column instance of the matrix overload -/
+section Vec
+variable {n : Nat}
+
+theorem foldl_comm {σ τ : Type} (g : σ → τ) :
+    ∀ (n : Nat) (f : σ → Fin n → σ) (f' : τ → Fin n → τ) (x : σ),
+      (∀ y k, g (f y k) = f' (g y) k) → g (Fin.foldl n f x) = Fin.foldl n f' (g x) := by
+  intro n
+  induction n with
+  | zero => intro f f' x _; simp
+  | succ n ih =>
+    intro f f' x hc
+    rw [Fin.foldl_succ_last, Fin.foldl_succ_last, hc, ih _ (fun t k => f' t k.castSucc) x (fun y k => hc y k.castSucc)]
+
+theorem foldr_comm {σ τ : Type} (g : σ → τ) :
+    ∀ (n : Nat) (f : Fin n → σ → σ) (f' : Fin n → τ → τ) (x : σ),
+      (∀ k y, g (f k y) = f' k (g y)) → g (Fin.foldr n f x) = Fin.foldr n f' (g x) := by
+  intro n
+  induction n with
+  | zero => intro f f' x _; simp
+  | succ n ih =>
+    intro f f' x hc
+    rw [Fin.foldr_succ_last, Fin.foldr_succ_last, ih _ (fun k t => f' k.castSucc t) _ (fun k y => hc k.castSucc y), hc]
+
+@[simp] theorem colMat_get (v : Vector ℝ n) (i : Fin n) (j : Fin 1) : (colMat v).get i j = v[i.val]'i.isLt := by
+  simp [colMat]
+
+/-- when the vector `solve` returns `(d, x)`, the matrix `solve` on the one-column matrix of `b`
+returns `(d, column of x)` -/
+theorem solveVec_as_solve (s : State ℝ n n) (b : Vector ℝ n) (d : ℝ) (x : Vector ℝ n)
+    (hs : solveVec s b = .ok (d, x)) : solve s (colMat b) = .ok (d, colMat x) := by
+  unfold solveVec at hs
+  unfold solve
+  rw [dif_pos (rfl : n = n)] at hs ⊢
+  by_cases hn : 0 < n
+  · rw [dif_pos ⟨rfl, hn⟩] at hs ⊢
+    simp only at hs ⊢
+    by_cases hbt : belowThreshold (minDiag s rfl hn) = true
+    · rw [if_pos hbt] at hs; cases hs
+    · rw [if_neg hbt] at hs ⊢
+      rw [if_pos (by decide : 0 < 1)]
+      injection hs with hs
+      injection hs with hd hx
+      rw [hd, ← hx]
+      congr 2
+      unfold substitute
+      have h0 : colMat (permuteCopyV b rfl s.piv) = permuteCopy (colMat b) rfl s.piv := by
+        apply Mat.ext; intro i j; simp [permuteCopyV, permuteCopy]
+      rw [← h0]
+      rw [← foldl_comm colMat n (fwdStepV s rfl) (fwdStep s rfl) _ (by
+        intro y k; apply Mat.ext; intro i j
+        simp only [colMat_get, fwdStepV, fwdStep, Mat.get_ofFn, Vector.getElem_ofFn, Fin.cast_eq_self])]
+      rw [← foldr_comm colMat n (backStepV s rfl) (backStep s rfl) _ (by
+        intro k y; apply Mat.ext; intro i j
+        simp only [colMat_get, backStepV, backStep, Mat.get_ofFn, Vector.getElem_ofFn, Fin.cast_eq_self])]
+  · rw [dif_neg (fun hh => hn hh.2)] at hs; cases hs
+
+end Vec
+
 end Bpp.LU
